@@ -26,12 +26,13 @@ import (
 var (
 	stallBound = 20 * time.Second
 	stallGap   = 2 * time.Second
-	caseBound  = 150 * time.Second
+	caseBound  = 150 * time.Second // without any progress of the case
 )
 
 const eventPkg = "github.com/bytom/bytom/event."
 
 type slot struct {
+	g     *guard
 	name  atomic.Value // string
 	since atomic.Int64
 	busy  atomic.Bool
@@ -43,6 +44,7 @@ func (s *slot) do(name string, fn func()) {
 	s.busy.Store(true)
 	fn()
 	s.busy.Store(false)
+	s.g.progress.Add(1)
 }
 
 type stallVerdict struct {
@@ -60,6 +62,9 @@ type guard struct {
 	quit    chan struct{}
 	aborted atomic.Bool
 	once    sync.Once
+	// bumped by every completed dispatcher call and every event taken from a
+	// channel: the case watchdog only fires when this stands still
+	progress atomic.Int64
 }
 
 func newGuard(pkg string) *guard {
@@ -69,7 +74,7 @@ func newGuard(pkg string) *guard {
 }
 
 func (g *guard) newSlot() *slot {
-	s := &slot{}
+	s := &slot{g: g}
 	g.mu.Lock()
 	g.slots = append(g.slots, s)
 	g.mu.Unlock()
